@@ -204,6 +204,7 @@ package quic
 //@   ensures [rotates-with-retire] implies(h.activeSequenceNumber != old(h.activeSequenceNumber), called("field:queueControlFrame") == 1)
 //@   ensures [no-silent-retire] iff(called("field:queueControlFrame") == 0, len(h.queue) == old(len(h.queue))) && iff(called("field:queueControlFrame") == 1, len(h.queue) == old(len(h.queue)) - 1) && called("field:queueControlFrame") <= 1
 //@   ensures [unchanged-without-retire] implies(called("field:queueControlFrame") == 0, h.activeSequenceNumber == old(h.activeSequenceNumber) && h.highestRetired == old(h.highestRetired))
+//@   ensures [no-rotation-before-handshake] implies(!h.handshakeComplete, called("field:queueControlFrame") == 0)
 //@   modifies h.highestRetired, h.queue, h.activeSequenceNumber, h.activeConnectionID.*, h.activeStatelessResetToken, h.packetsSinceLastChange, h.packetsPerConnectionID, h.rand.*
 
 //@ func (h *connIDManager) Add
@@ -1010,3 +1011,44 @@ package quic
 //@   ensures [crypto-length-budget] implies(firstIsInitial && 0 < cl && cl <= 4611686018427387903 && budget < maxSize - ufi("aead.overhead"), callarg("(*packetPacker).maybeGetCryptoPacket", 0, 1) == budget)
 //@   ensures [never-above-datagram] implies(firstIsInitial, callarg("(*packetPacker).maybeGetCryptoPacket", 0, 1) <= maxSize - ufi("aead.overhead"))
 //@   modifies everything
+
+//@ func (p *receivedPacket) Size
+//@   props C13
+//@   ensures result == len(p.data)
+//@   modifies nothing
+
+//@ func (c *Conn) handleVersionNegotiationPacket
+//@   props C13
+//@   requires c.sentPacketHandler != nil && c.config != nil && len(p.data) <= 1099511627776
+//@   let late = old(c.perspective == protocol.PerspectiveServer || c.receivedFirstPacket || c.versionNegotiated)
+//@   ensures [ignored-after-first-packet-or-negotiation] implies(late, result == nil && called("ParseVersionNegotiationPacket") == 0 && called("(*Conn).destroyImpl") == 0 && called("ChooseSupportedVersion") == 0)
+//@   ensures [offered-version-listed-is-ignored] implies(called("Contains") == 1 && lastresultb("Contains"), result == nil && called("(*Conn).destroyImpl") == 0 && called("ChooseSupportedVersion") == 0)
+//@   ensures [outcome] implies(result != nil, typeis(result, *errCloseForRecreating) && !late && called("ChooseSupportedVersion") == 1 && called("(*Conn).destroyImpl") == 0)
+//@   ensures [no-common-version-closes] implies(called("(*Conn).destroyImpl") == 1, result == nil && !late)
+//@   ensures [state-untouched] c.version == old(c.version) && c.versionNegotiated == old(c.versionNegotiated) && c.receivedFirstPacket == old(c.receivedFirstPacket)
+//@   opt prune yes
+//@   modifies nothing
+
+//@ func (c *Conn) handleRetryPacket
+//@   props C13
+//@   requires c.connIDManager != nil && c.connIDManager.qInv() && !c.connIDManager.closed && c.connIDManager.activeSequenceNumber == 0 && !c.connIDManager.handshakeComplete
+//@   requires c.sentPacketHandler != nil && c.cryptoStreamHandler != nil && c.packer != nil && hdr != nil && len(data) >= 16
+//@   let ignored = old(c.perspective == protocol.PerspectiveServer || c.receivedFirstPacket || c.receivedRetry)
+//@   ensures [ignored-when-late-or-server] implies(ignored, !result && called("GetRetryIntegrityTag") == 0)
+//@   ensures [invalid-tag-ignored] implies(called("Equal") == 1 && !lastresultb("Equal"), !result)
+//@   ensures [tag-always-checked] implies(result, called("GetRetryIntegrityTag") == 1 && called("Equal") == 1 && lastresultb("Equal") && !ignored)
+//@   ensures [state-untouched-when-ignored] implies(!result, c.receivedRetry == old(c.receivedRetry) && c.retrySrcConnID == old(c.retrySrcConnID) && c.handshakeDestConnID.l == old(c.handshakeDestConnID.l) && called("(ackhandler.SentPacketHandler).ResetForRetry") == 0 && called("(quic.packer).SetToken") == 0 && called("(quic.cryptoStreamHandler).ChangeConnectionID") == 0 && called("(*connIDManager).ChangeInitialConnID") == 0)
+//@   ensures [accepted-once] implies(result, c.receivedRetry && !old(c.receivedRetry) && c.retrySrcConnID != nil && called("(ackhandler.SentPacketHandler).ResetForRetry") == 1 && called("(quic.packer).SetToken") == 1 && called("(quic.cryptoStreamHandler).ChangeConnectionID") == 1 && called("(*connIDManager).ChangeInitialConnID") == 1)
+//@   opt prune yes
+//@   modifies c.receivedRetry, c.handshakeDestConnID.*, c.retrySrcConnID, c.connIDManager.activeConnectionID.*, c.connIDManager.highestRetired, c.connIDManager.queue, c.connIDManager.activeSequenceNumber, c.connIDManager.activeStatelessResetToken, c.connIDManager.packetsSinceLastChange, c.connIDManager.packetsPerConnectionID, c.connIDManager.rand.*
+
+//@ spec cideq(a protocol.ConnectionID, b protocol.ConnectionID) bool = a.l == b.l && a.b == b.b
+//@ func (c *Conn) checkTransportParameters
+//@   props C13
+//@   requires params != nil
+//@   let client = c.perspective != protocol.PerspectiveServer
+//@   ensures [authenticated-iff] iff(result == nil,
+//@              cideq(params.InitialSourceConnectionID, c.handshakeDestConnID) &&
+//@              implies(client, cideq(params.OriginalDestinationConnectionID, c.origDestConnID) &&
+//@                              ite(c.retrySrcConnID != nil, params.RetrySourceConnectionID != nil && cideq(*params.RetrySourceConnectionID, *c.retrySrcConnID), params.RetrySourceConnectionID == nil)))
+//@   modifies nothing
